@@ -2271,6 +2271,29 @@ def verUsed (c : V2.I_Claims) (hdr : Option V2.T_Header) (ver : Int) : Int :=
   | .GenericClaims _, some h => if h.f_Algorithm != "ed25519".toList then 2 else ver
   | _, _ => ver
 
+/-- `ClaimsData.verify` as translated never panics, and answers `true` exactly when the issuer string yields a key
+pair (`nkeys.FromPublicKey`), decodes under its own prefix to a 32-byte key (repair D11), and that key pair's `Verify`
+returns no error on the bytes of the payload text and the signature -/
+theorem v2_verify (opq : V2.Opq) (cd : V2.T_ClaimsData) (text : Str) (sig : List Int) :
+    V2.ClaimsData_verify cd text sig opq = some
+      (match opq.nkeys_FromPublicKey cd.f_Issuer, opq.nkeys_Decode (opq.nkeys_Prefix cd.f_Issuer) (strBytes cd.f_Issuer) with
+       | some kp, some raw => decide (len raw = 32) && !opq.KeyPair_Verify kp (strBytes text) sig
+       | _, _ => false) := by
+  unfold V2.ClaimsData_verify
+  cases h1 : opq.nkeys_FromPublicKey cd.f_Issuer <;>
+    cases h2 : opq.nkeys_Decode (opq.nkeys_Prefix cd.f_Issuer) (strBytes cd.f_Issuer) <;> simp
+  rename_i kp raw
+  by_cases h3 : len raw = 32 <;> cases h4 : opq.KeyPair_Verify kp (strBytes text) sig <;> simp [h3, h4]
+
+/-- `claim.verify(...)` on the interface: every kind inherits `ClaimsData.verify` and is checked under its own issuer -/
+theorem v2_verify_dispatch (opq : V2.Opq) (c : V2.I_Claims) (text : Str) (sig : List Int) :
+    V2.I_Claims.verify c text sig opq = some
+      (match opq.nkeys_FromPublicKey (viewOf c).issuer,
+             opq.nkeys_Decode (opq.nkeys_Prefix (viewOf c).issuer) (strBytes (viewOf c).issuer) with
+       | some kp, some raw => decide (len raw = 32) && !opq.KeyPair_Verify kp (strBytes text) sig
+       | _, _ => false) := by
+  cases c <;> simp only [V2.I_Claims.verify, v2_verify, viewOf]
+
 /-- **`Decode` accepts only authentic tokens (translated code).** If the translated `Decode` returns claims `c`
 without an error, then the token had exactly three chunks `hd.p.s`; header, payload and signature decoded without
 error; `c` is what the (translated) `loadClaims` returned for the payload; the claim's own `verify` accepted the signature over `p`
@@ -2284,7 +2307,7 @@ theorem gen_decode_accepts (opq : V2.Opq) (tok : Str) (c : V2.I_Claims)
       opq.decodeString p = some (data, false) ∧
       V2.loadClaims data opq = some (ver, some c, false) ∧
       opq.decodeString s = some (sig, false) ∧
-      opq.Claims_verify c (if verUsed c hdr ver ≤ 1 then p else hd ++ '.' :: p) sig = true ∧
+      V2.I_Claims.verify c (if verUsed c hdr ver ≤ 1 then p else hd ++ '.' :: p) sig opq = some true ∧
       (match V2.I_Claims.ExpectedPrefixes c with
        | some (some ps) => ps.any (prefixOk opq (viewOf c).issuer) = true
        | _ => True) := by
@@ -2329,6 +2352,10 @@ theorem gen_decode_accepts (opq : V2.Opq) (tok : Str) (c : V2.I_Claims)
         conv => lhs; rw [ht]
         exact strSliceTo_prefix _ _
       simp only [Option.bind_some, hslice] at h
+      obtain ⟨bp, hbp⟩ : ∃ b, V2.I_Claims.verify c' p sig opq = some b := ⟨_, v2_verify_dispatch opq c' p sig⟩
+      obtain ⟨bq, hbq⟩ : ∃ b, V2.I_Claims.verify c' (hd ++ '.' :: p) sig opq = some b :=
+        ⟨_, v2_verify_dispatch opq c' (hd ++ '.' :: p) sig⟩
+      simp only [hbp, hbq, Option.bind_some] at h
       cases c' with
       | GenericClaims v =>
         cases hdr with
@@ -2347,7 +2374,7 @@ theorem gen_decode_accepts (opq : V2.Opq) (tok : Str) (c : V2.I_Claims)
               subst h
               refine ⟨hd, p, s, some hh, data, sig, ver, rfl, hph, hdp, hlc, hds, ?_, ?_⟩
               · have e : ("ed25519".toList : Str) = ['e', 'd', '2', '5', '5', '1', '9'] := by decide
-                simpa [verUsed, e, ha, h2] using hV
+                simpa [verUsed, e, ha, h2, hbp, hbq] using hV
               · simp [V2.I_Claims.ExpectedPrefixes, V2.GenericClaims_ExpectedPrefixes]
           · have ha' : (hh.f_Algorithm != ['e', 'd', '2', '5', '5', '1', '9']) = false := by simpa using ha
             simp only [ha', Bool.false_eq_true, if_false] at h
@@ -2361,7 +2388,7 @@ theorem gen_decode_accepts (opq : V2.Opq) (tok : Str) (c : V2.I_Claims)
                 subst h
                 refine ⟨hd, p, s, some hh, data, sig, ver, rfl, hph, hdp, hlc, hds, ?_, ?_⟩
                 · have e : ("ed25519".toList : Str) = ['e', 'd', '2', '5', '5', '1', '9'] := by decide
-                  simpa [verUsed, e, ha', hv] using hV
+                  simpa [verUsed, e, ha', hv, hbp, hbq] using hV
                 · simp [V2.I_Claims.ExpectedPrefixes, V2.GenericClaims_ExpectedPrefixes]
       | _ =>
         simp only [Option.isSome_none, Bool.false_eq_true, if_false, Option.bind_some, V2.I_Claims.ExpectedPrefixes,
@@ -2382,7 +2409,7 @@ theorem gen_decode_accepts (opq : V2.Opq) (tok : Str) (c : V2.I_Claims)
               simp only [Option.some.injEq, Prod.mk.injEq, and_true] at h
               subst h
               refine ⟨hd, p, s, hdr, data, sig, ver, rfl, hph, hdp, hlc, hds, ?_, ?_⟩
-              · simpa [verUsed, hv] using hV
+              · simpa [verUsed, hv, hbp, hbq] using hV
               · simp only [Bool.not_eq_true', Bool.not_eq_false] at hA
                 simp only [V2.I_Claims.ExpectedPrefixes, V2.AccountClaims_ExpectedPrefixes, V2.OperatorClaims_ExpectedPrefixes,
                   V2.UserClaims_ExpectedPrefixes, V2.ActivationClaims_ExpectedPrefixes,
@@ -2391,6 +2418,32 @@ theorem gen_decode_accepts (opq : V2.Opq) (tok : Str) (c : V2.I_Claims)
                 exact hA
   · have hl : ¬ ((l.length : Int) + 1 + 1 + 1 + 1 = 3) := by omega
     simp [hsp, len, hl] at h
+
+/-- **C01 on the translated code, down to the key.** Claims returned by the translated `Decode` were verified under a key
+pair obtained from *their own issuer string* (`nkeys.FromPublicKey`), which decodes under its prefix to a 32-byte key,
+and that key pair's `Verify` returned no error for the signature over the bytes of `p` (reported version ≤ 1) or of
+`hd.p` (otherwise). Only the three nkeys functions and `KeyPair.Verify` (Ed25519) stay outside. -/
+theorem gen_decode_authentic (opq : V2.Opq) (tok : Str) (c : V2.I_Claims)
+    (h : V2.Decode tok opq = some (some c, false)) :
+    ∃ hd p s hdr data sig ver kp raw,
+      splitOn '.' tok = [hd, p, s] ∧
+      opq.parseHeaders hd = some (hdr, false) ∧
+      opq.decodeString p = some (data, false) ∧
+      V2.loadClaims data opq = some (ver, some c, false) ∧
+      opq.decodeString s = some (sig, false) ∧
+      opq.nkeys_FromPublicKey (viewOf c).issuer = some kp ∧
+      opq.nkeys_Decode (opq.nkeys_Prefix (viewOf c).issuer) (strBytes (viewOf c).issuer) = some raw ∧ len raw = 32 ∧
+      opq.KeyPair_Verify kp (strBytes (if verUsed c hdr ver ≤ 1 then p else hd ++ '.' :: p)) sig = false := by
+  obtain ⟨hd, p, s, hdr, data, sig, ver, h1, h2, h3, h4, h5, h6, _⟩ := gen_decode_accepts opq tok c h
+  rw [v2_verify_dispatch] at h6
+  cases hk : opq.nkeys_FromPublicKey (viewOf c).issuer with
+  | none => simp [hk] at h6
+  | some kp =>
+    cases hr : opq.nkeys_Decode (opq.nkeys_Prefix (viewOf c).issuer) (strBytes (viewOf c).issuer) with
+    | none => simp [hk, hr] at h6
+    | some raw =>
+      simp only [hk, hr, Option.some.injEq, Bool.and_eq_true, decide_eq_true_eq, Bool.not_eq_true'] at h6
+      exact ⟨hd, p, s, hdr, data, sig, ver, kp, raw, h1, h2, h3, h4, h5, rfl, rfl, h6.1, h6.2⟩
 
 /-- non-vacuity: an environment in which the translated `Decode` accepts a token (so the hypothesis of
 `gen_decode_accepts` is satisfiable, and the conclusion's verification text is the `hd.p` one) -/
@@ -2407,7 +2460,9 @@ def demoOpq : V2.Opq :=
     nkeys_IsValidPublicUserKey := fun _ => false, nkeys_IsValidPublicCurveKey := fun _ => false,
     nkeys_IsValidPublicServerKey := fun _ => false, time_Parse := fun _ _ => false, net_ParseCIDR := fun _ => false,
     time_LoadLocation := fun _ => false, nkeys_IsValidPublicOperatorKey := fun _ => false,
-    Claims_verify := fun _ text _ => text == "a.b".toList,
+    nkeys_FromPublicKey := fun _ => some 7, nkeys_Prefix := fun _ => 0,
+    nkeys_Decode := fun _ _ => some (List.replicate 32 0),
+    KeyPair_Verify := fun _ text _ => !(text == strBytes "a.b".toList),
     ClaimsData_encode := fun _ _ _ => none, sort_SortExports := fun x => x, sort_SortImports := fun x => x }
 
 example : V2.Decode "a.b.c".toList demoOpq = some (some (.AccountClaims default), false) := by decide
